@@ -157,6 +157,19 @@ def root_object(e):
     return e
 
 
+def _exits(t):
+    """does the statement unconditionally leave the enclosing statement list (return / break / continue / goto)"""
+    if not isinstance(t, dict):
+        return False
+    k = t.get('k')
+    if k in ('ReturnStmt', 'BreakStmt', 'ContinueStmt', 'GotoStmt'):
+        return True
+    if k == 'CompoundStmt':
+        body = t.get('body') or []
+        return bool(body) and _exits(body[-1])
+    return False
+
+
 class Fn:
     def __init__(self, d, unit):
         self.d = d
@@ -190,7 +203,12 @@ class Fn:
                 return
             k = t.get('k')
             if k == 'CompoundStmt':
-                rec(t.get('body'), guards)
+                # statements after `if(c) return/break/continue;` run only when c is false
+                acc = list(guards)
+                for c in t.get('body') or []:
+                    rec(c, acc)
+                    if isinstance(c, dict) and c.get('k') == 'IfStmt' and c.get('else') is None and _exits(c.get('then')):
+                        acc = acc + [('if', c['cond'], False)]
             elif k == 'IfStmt':
                 rec(t.get('then'), guards + [('if', t['cond'], True)])
                 rec(t.get('else'), guards + [('if', t['cond'], False)])
@@ -205,6 +223,7 @@ class Fn:
                 body = t.get('body')
                 items = body.get('body', []) if isinstance(body, dict) and body.get('k') == 'CompoundStmt' else [body]
                 cur = None
+                extra = []
                 for it in items:
                     x = it
                     vals = None
@@ -213,7 +232,10 @@ class Fn:
                         x = x.get('sub')
                     if vals is not None:
                         cur = vals
-                    rec(x, guards + [('switch', t['cond'], cur)])
+                        extra = []
+                    rec(x, guards + [('switch', t['cond'], cur)] + extra)
+                    if isinstance(x, dict) and x.get('k') == 'IfStmt' and x.get('else') is None and _exits(x.get('then')):
+                        extra = extra + [('if', x['cond'], False)]
             elif k in ('CaseStmt', 'DefaultStmt', 'LabelStmt'):
                 rec(t.get('sub'), guards)
             elif k == 'CXXTryStmt':
